@@ -23,8 +23,8 @@ PROPS = {
             {"lane": "unpack", "quick": 2500, "thorough": 60000},
         ],
         "trusted_base": [STDLIB, FSMODEL],
-        "assumptions": ["as C01; open findings F3 (TidyLinks) and F12 (absolute in-dst targets are accepted)"],
-        "explanation": "C04_safe_after_unpack_partial: after Unpack (any result, any fault) every link under dst resolves, the way the kernel follows it through any chain of other links, to a place under dst; C04_allGood_safe (syntactic invariant implies physical safety), C04_links_inside_partial (the invariant is preserved), C04_reject / C04_accepted_is_lexically_inside (decision logic of validSymlink), isWithin_iff (the separator-aware containment test equals component-prefix containment). Counterexamples C04_cex_dotdot_after_link (F3). Tie: 'unpack' lane; oracle resolves every link under dst physically with Lstat/Readlink.",
+        "assumptions": ["as C01; open finding F3 (TidyLinks). F12 (absolute in-dst targets were accepted) is repaired: C04_abs_target_refused / C04_unpack_ok_links_relative"],
+        "explanation": "C04_safe_after_unpack_partial: after Unpack (any result, any fault) every link under dst resolves, the way the kernel follows it through any chain of other links, to a place under dst; C04_allGood_safe (syntactic invariant implies physical safety), C04_links_inside_partial (the invariant is preserved), C04_reject / C04_accepted_is_lexically_inside (decision logic of validSymlink), isWithin_iff (the separator-aware containment test equals component-prefix containment). Absolute targets: C04_abs_target_refused, C04_abs_target_needs_allow, C04_accepted_target_relative, C04_unpack_ok_links_relative (an Unpack that succeeds without an allow-list created only relative links). Counterexamples C04_cex_dotdot_after_link (F3). Tie: 'unpack' lane; oracle resolves every link under dst physically with Lstat/Readlink.",
     },
     "C12": {
         "lanes": [
